@@ -19,7 +19,7 @@ var _ hash.Hash
 //@ props C05
 
 //@ func (*AES128CBC).DecodeFromBytes
-//@ props C05 C17 C04 C07
+//@ props C05 C17 C04 C07 C08
 //@ config a.cipher
 //@ requires [aes.cipher] !isnil(a.cipher) // object invariant established by NewAES128CBC, the only constructor
 //@ invariant 0 [aes.padscan] padStart <= i && i <= padStart+int(padBytes) && v == uint8(i-padStart)+1 &&
@@ -56,19 +56,19 @@ var _ hash.Hash
 //@ props C05
 
 //@ func (*FullSensorRecord).DecodeFromBytes
-//@ props C05 C17 C07
+//@ props C05 C17 C07 C15 C20
 //@ ensures [C07.fsr-short] len(data) < 43 ==> result != nil
 //@ ensures [C07.fsr-key] result == nil ==> r.OwnerAddress == Address(data[0]) && r.Channel == Channel(data[1]/16) && r.OwnerLUN == LUN(data[1]%4) && r.Number == data[2]
 //@ ensures [C07.fsr-entity] result == nil ==> r.Entity == EntityID(data[3]) && r.IsContainerEntity == bit(data[4], 7) && r.Instance == EntityInstance(data[4]%128)
 //@ ensures [C07.fsr-type] result == nil ==> r.Ignore == bit(data[6], 7) && r.SensorType == SensorType(data[7]) && r.OutputType == OutputType(data[8])
-//@ ensures [C07.fsr-units] result == nil ==> r.AnalogDataFormat == AnalogDataFormat(data[15]/64) && r.RateUnit == RateUnit(data[15]/8%8) &&
+//@ ensures [C07+C15.fsr-units] result == nil ==> r.AnalogDataFormat == AnalogDataFormat(data[15]/64) && r.RateUnit == RateUnit(data[15]/8%8) &&
 //@    r.IsPercentage == bit(data[15], 0) && r.BaseUnit == SensorUnit(data[16]) && r.ModifierUnit == SensorUnit(data[17])
-//@ ensures [C07.fsr-lin] result == nil ==> r.Linearisation == Linearisation(data[18]%128)
-//@ ensures [C07.fsr-m] result == nil ==> r.M == specSigned(uint16(data[20]/64)*256+uint16(data[19]), 10) && r.Tolerance == data[20]%64
-//@ ensures [C07.fsr-b] result == nil ==> r.B == specSigned(uint16(data[22]/64)*256+uint16(data[21]), 10)
+//@ ensures [C07+C15.fsr-lin] result == nil ==> r.Linearisation == Linearisation(data[18]%128)
+//@ ensures [C07+C15+C20.fsr-m] result == nil ==> r.M == specSigned(uint16(data[20]/64)*256+uint16(data[19]), 10) && r.Tolerance == data[20]%64
+//@ ensures [C07+C15+C20.fsr-b] result == nil ==> r.B == specSigned(uint16(data[22]/64)*256+uint16(data[21]), 10)
 //@ ensures [C07.fsr-accuracy] result == nil ==> r.Accuracy == specSigned(uint16(data[23]/16)*64+uint16(data[22]%64), 10) &&
 //@    r.AccuracyExp == data[23]/4%4 && r.Direction == SensorDirection(data[23]%4)
-//@ ensures [C07.fsr-exp] result == nil ==> int16(r.RExp) == specSigned(uint16(data[24]/16), 4) && int16(r.BExp) == specSigned(uint16(data[24]%16), 4)
+//@ ensures [C07+C15+C20.fsr-exp] result == nil ==> int16(r.RExp) == specSigned(uint16(data[24]/16), 4) && int16(r.BExp) == specSigned(uint16(data[24]%16), 4)
 //@ ensures [C07.fsr-flags] result == nil ==> r.NominalReadingSpecified == bit(data[25], 0) && r.NormalMaxSpecified == bit(data[25], 1) && r.NormalMinSpecified == bit(data[25], 2)
 //@ ensures [C07.fsr-readings] result == nil ==> r.NominalReading == data[26] && r.NormalMax == data[27] && r.NormalMin == data[28] && r.SensorMax == data[29] && r.SensorMin == data[30]
 //@ ensures [C07.fsr-idlen] result == nil ==> len(r.Identity) == int(data[42]%32)
@@ -223,7 +223,7 @@ var _ hash.Hash
 //@ props C05
 
 //@ func (*Message).DecodeFromBytes
-//@ props C05 C17 C07 C11
+//@ props C05 C17 C07 C11 C08
 //@ ensures [C07.msg-short] len(data) < 7 ==> result != nil
 //@ ensures [C07.msg-checksum1] len(data) >= 7 && data[2] != -bsum8(data, 0, 2) ==> result != nil
 //@ ensures [C07.msg-checksum2] len(data) >= 7 && data[len(data)-1] != -bsum8(data, 3, len(data)-1) ==> result != nil
